@@ -95,6 +95,9 @@ def check(ctx):
                 if thorough:
                     keep |= set(range(0, mx + 1, 97))
                 cases = [c for c in cases if c["n"] in keep]
+            # up through the lengths with 4-octet source addresses, down again with 16-octet ones: the mirror worker re-uses its
+            # marshalled headers from one datagram to the next, so short (and empty) datagrams must also FOLLOW long ones
+            cases = cases[::2] + cases[1::2][::-1]
             cin, cout, prog = os.path.join(d, "cases.ndjson"), os.path.join(d, "out.ndjson"), os.path.join(d, "progress.json")
             vlib.write_ndjson(cin, cases)
             for f in (cout, prog):
